@@ -622,6 +622,21 @@ def stepProvCore (d : ProvDrv) (a : Acc) (s : Step) : ProvDrv × Acc :=
              else if (Equiv.byzantine m).isNone then a.tag "misb-bad-common-signature"
              else a.tag "misb-nobody-punishable"
     ({ impl := after }, a)
+  | "cattach" | "relay" =>
+    ({ impl := after }, a.cmp s.lineNo s!"{s.op.name}.res" "ok" res)
+  | "cblock" =>
+    -- two-chain stream: the REAL consumer, fed the provider's packets in order with arbitrary delays,
+    -- holds after every block exactly the provider's set of the last packet delivered, and so does
+    -- its consensus engine (folded from the updates EndBlock returned)
+    let o := s.ob "r"
+    let canon := fun (t : String) => fmtPairs (isort (fun (x y : Nat × Nat) => decide (x.1 ≤ y.1)) ((parsePairs t).filter (·.2 != 0)))
+    let a := a.cmp s.lineNo "cblock.res" "ok" res
+    let a := a.spec s.lineNo "C01.consumer-follows-provider" (canon (o.get "cc") == canon (o.get "expect"))
+      s!"consumer={o.get "cc"} provider-at-last-delivered-packet={o.get "expect"}"
+    let a := a.spec s.lineNo "C01.engine-follows-consumer" (canon (o.get "engine") == canon (o.get "cc"))
+      s!"engine={o.get "engine"} consumer={o.get "cc"}"
+    let a := { (a.tag "consumer-block") with nontrivial := a.nontrivial + 1 }
+    ({ impl := after }, if nat0 (o.get "waiting") > 0 then a.tag "consumer-block-with-packets-in-flight" else a)
   | "reward" =>
     let c := s.op.get "c"
     let denom := s.op.get "denom"
